@@ -26,7 +26,9 @@ def gen(wd, family: str, mode: str, *, rnd_seed=None, rndn=5, rndk=4):
         items = tagged_lines(r["out"], "IDG")
         items.sort(key=lambda it: json.dumps(it["g"], sort_keys=True))
         for it in items:
-            it["qs"] = sorted([sorted(q[0]), sorted(q[1]), sorted(q[2]), q[3]] for q in it["qs"])
+            # q[2] is a set (conditions) except in mode "tian", where it is a topological order (a sequence)
+            it["qs"] = sorted([sorted(q[0]), sorted(q[1]), list(q[2]) if mode == "tian" else sorted(q[2]), q[3]]
+                              for q in it["qs"])
         return {"items": items, "generated": r["generated"], "distinct": r["distinct"]}
     if rnd_seed is not None:
         return go(), False
@@ -37,7 +39,7 @@ def mc(wd, family: str, mode: str, seeds=(1, 2)):
     """Design-level model checking of the reference algorithm against the SCM semantics."""
     def go():
         cfg = wd / f"IDMachine_{family}_{mode}.cfg"
-        invs = ["Sound", "Vocab"] + (["Complete"] if mode == "id" else [])
+        invs = ["Sound", "Vocab"] + (["Complete"] if mode == "id" else []) + (["TianComplete"] if mode == "tian" else [])
         cfg.write_text(f'SPECIFICATION Spec\nCONSTANTS\n  Family = "{family}"\n  Mode = "{mode}"\n'
                        f"  Seeds = {{{', '.join(map(str, seeds))}}}\n  Check = TRUE\n  RndN = 5\n  RndK = 4\n"
                        + "".join(f"INVARIANT {i}\n" for i in invs) + "CHECK_DEADLOCK FALSE\n")
